@@ -298,6 +298,15 @@ def _dispatch(U, name, a):
         ts = [T(x) for x in seq]
         U.childlist(n, via).move(ts[0] if len(ts) == 1 else ts, **kw)
         return None
+    if name == "ChRemoveAll":
+        lst = U.childlist(n, via)
+        if a["key"] == 0:
+            lst.remove_all()
+        elif a["rev"]:
+            lst.remove_all(lambda t, k=a["key"] - 1: getattr(t, "prio", None) == k)
+        else:
+            lst.remove_all(prio=a["key"] - 1)
+        return None
     if name == "ChSort":
         U.childlist(n, via).sort(SORT_KEYS[a["key"] - 1], reverse=bool(a["rev"]))
         return None
@@ -365,7 +374,7 @@ def _b(x):
     return 1 if x is True else (0 if x is False else 2)
 
 
-LIST_FACADE = {"ChMove", "ChSort", "ChReorder", "ChRemove", "ListLShift", "ListRShift", "SetPredsFrom",
+LIST_FACADE = {"ChRemoveAll", "ChMove", "ChSort", "ChReorder", "ChRemove", "ListLShift", "ListRShift", "SetPredsFrom",
                "SetSuccsFrom", "BulkParent", "BulkPreds"}
 
 
@@ -429,6 +438,9 @@ def alphabet(N, W, L=2, ids=None, level=2, light=False):
             for key in (1, 3) if light else (1, 2, 3):
                 for rev in (0, 1):
                     A.append(act("ChSort", n=n, key=key, rev=rev))
+            A.append(act("ChRemoveAll", n=n, key=0))
+            A.append(act("ChRemoveAll", n=n, key=2))            # remove_all(prio=1)
+            A.append(act("ChRemoveAll", n=n, key=2, rev=1))     # ... with a callable
             idset = sorted(set(ids or [])) + [99]
             for k in range(0, 2 if light else 3):
                 for s in itertools.product(idset, repeat=k):
